@@ -35,7 +35,7 @@ static int c14_main(int argc,char **argv){
     if(!strcmp(tok[0],"case")){
       printf("== case %s\n",n>1?tok[1]:"?"); fflush(stdout); case_watchdog();
     }else if(!strcmp(tok[0],"cfg")&&n>=9){
-      struct ovectl_ratemanage2_arg ai; int rc;
+      struct ovectl_ratemanage2_arg ai; int rc; int refused=0,hasref=0;
       int ch=atoi(tok[1]); long rate=atol(tok[2]), nom=atol(tok[3]);
       c14_close();
       vorbis_info_init(&E14.vi);
@@ -45,8 +45,15 @@ static int c14_main(int argc,char **argv){
         ai.management_active=1;
         ai.bitrate_limit_max_kbps=atol(tok[4]); ai.bitrate_average_kbps=atol(tok[5]); ai.bitrate_limit_min_kbps=atol(tok[6]);
         ai.bitrate_limit_reservoir_bits=atol(tok[7]); ai.bitrate_limit_reservoir_bias=atof(tok[8]);
-        if(n>=10) ai.bitrate_average_damping=atof(tok[9]);
+        if(n>=10&&tok[9][0]!='X') ai.bitrate_average_damping=atof(tok[9]);
         if(!rc) rc=vorbis_encode_ctl(&E14.vi,OV_ECTL_RATEMANAGE2_SET,&ai);
+        /* X<max>:<avg>:<min>:<kind>: a second request with other (consistent) limits and one tuning value out of range: it must be refused
+           and leave the accepted configuration as it is */
+        if(!rc&&tok[n-1][0]=='X'){ struct ovectl_ratemanage2_arg a2=ai; long mx=0,av=0,mn=0; int kind=0;
+          sscanf(tok[n-1]+1,"%ld:%ld:%ld:%d",&mx,&av,&mn,&kind);
+          a2.bitrate_limit_max_kbps=mx; a2.bitrate_average_kbps=av; a2.bitrate_limit_min_kbps=mn;
+          if(kind==0)a2.bitrate_limit_reservoir_bias=1.5; else if(kind==1)a2.bitrate_average_damping=0.; else if(kind==2)a2.bitrate_limit_reservoir_bits=-5; else a2.bitrate_limit_reservoir_bias=NAN;
+          refused=vorbis_encode_ctl(&E14.vi,OV_ECTL_RATEMANAGE2_SET,&a2); hasref=1; }
         if(!rc) rc=vorbis_encode_setup_init(&E14.vi);
       }
       if(rc){ printf("cfg rc=%s\n",ovname(rc)); vorbis_info_clear(&E14.vi); }
@@ -58,6 +65,7 @@ static int c14_main(int argc,char **argv){
                bm->managed,bm->min_bitsper,bm->max_bitsper,bm->avg_bitsper,bm->short_per_long,ci->bi.reservoir_bits,
                (long)(ci->bi.reservoir_bits*ci->bi.reservoir_bias),bm->minmax_reservoir,ci->blocksizes[0],ci->blocksizes[1],E14.vi.rate,
                ci->bi.max_rate,ci->bi.min_rate);
+        if(hasref)printf("cfg2 refused=%s\n",ovname(refused));
       }
     }else if(!strcmp(tok[0],"blk")&&n>=2+PACKETBLOBS&&E14.live){
       vorbis_block_internal *vbi=E14.vb.internal; long blobs[PACKETBLOBS]; int i; long k; ogg_packet op;
